@@ -74,6 +74,11 @@ fn check_pair<T: PartialOrd + Clone + Debug>(ia: &Interval<T>, ib: &Interval<T>,
     ensure!(got == want, format!("C15/partial_cmp/{kp}"), "partial_cmp({ia:?}, {ib:?}) = {got:?}, definition says {want:?}");
     let eq = ia == ib;
     ensure!(eq == want_eq, format!("C15/eq/{kp}"), "({ia:?} == {ib:?}) = {eq}, expected {want_eq}");
+    // every way of asking for (in)equality: the operators on values and on references, and the trait methods
+    let ne = ia != ib;
+    ensure!(ne == !want_eq, format!("C15/ne/{kp}"), "({ia:?} != {ib:?}) = {ne}, expected {}", !want_eq);
+    ensure!((&ia == &ib) == eq && (&ia != &ib) == ne && ia.eq(ib) == eq && ia.ne(ib) == ne && (ib == ia) == eq && (ib != ia) == ne, format!("C15/eq_forms/{kp}"), "the forms of == / != disagree for {ia:?}, {ib:?}: == {eq}, != {ne}, refs {} {}, methods {} {}, reversed {} {}", &ia == &ib, &ia != &ib, ia.eq(ib), ia.ne(ib), ib == ia, ib != ia);
+    ensure!((&ia).partial_cmp(&ib) == got && ia.lt(ib) == (ia < ib) && ia.le(ib) == (ia <= ib) && ia.gt(ib) == (ia > ib) && ia.ge(ib) == (ia >= ib), format!("C15/cmp_forms/{kp}"), "the method and operator forms of the comparison disagree for {ia:?}, {ib:?}");
     ensure!((got == Some(Ordering::Equal)) == eq, format!("C15/equal_iff_eq/{kp}"), "partial_cmp({ia:?}, {ib:?}) = {got:?} but == is {eq}");
     let lt = ia < ib;
     let gt_rev = ib > ia;
